@@ -904,6 +904,9 @@ func (s *Service) subscribe() error {
 		return errors.New("res: no resources to serve")
 	}
 	var patterns []string
+	for _, p := range s.resetAccess {
+		patterns = append(patterns, "access."+p)
+	}
 	for _, t := range []string{RequestTypeGet, RequestTypeCall, RequestTypeAuth} {
 		for _, p := range s.resetResources {
 			pattern := t + "." + p
@@ -914,24 +917,13 @@ func (s *Service) subscribe() error {
 
 		}
 	}
-	for _, p := range s.resetAccess {
-		pattern := "access." + p
-		s.tracef("sub %s", pattern)
-		if s.queueGroup == "" {
-			_, err = s.nc.ChanSubscribe(pattern, s.inCh)
-		} else {
-			_, err = s.nc.ChanQueueSubscribe(pattern, s.queueGroup, s.inCh)
-		}
-		if err != nil {
-			return err
-		}
-	}
 
 next:
 	for i, pattern := range patterns {
-		// Skip patterns that overlap one another
+		// Skip patterns that are covered by another pattern, and all but the
+		// first of identical patterns.
 		for j, mpattern := range patterns {
-			if i != j && Pattern(mpattern).Matches(pattern) {
+			if i != j && Pattern(mpattern).Matches(pattern) && (mpattern != pattern || j < i) {
 				continue next
 			}
 		}
